@@ -67,6 +67,13 @@ Definition request (n : Z) : M unit := fun s =>
   then (Ok tt, mkst (rest s) (off s) (Some (off s + n)) (apos s) (stk s))
   else (Err EEof, mkst (rest s) (off s) (Some (off s + zlen (rest s))) (apos s) (stk s)).
 
+(* the same function computed without building the unary number n, for
+   requests whose size comes from the input (ParsLemmas.request_z_eq) *)
+Definition request_z (n : Z) : M unit := fun s =>
+  if zlen (rest s) <? n
+  then (Err EEof, mkst (rest s) (off s) (Some (off s + zlen (rest s))) (apos s) (stk s))
+  else request n s.
+
 (* State.Advance *)
 Definition advance : M unit := fun s =>
   match endr s with
@@ -238,6 +245,15 @@ Definition pHead : M unit :=
 (* pars.Spaces (never fails) *)
 Definition pSpaces : M (list byte) :=
   push ;;; _ <-- try next ;;; advance_while is_space ;;; trail.
+
+(* Scanner.atEnd: nothing but blanks and line ends remain; the position is
+   restored *)
+Definition at_end : M bool :=
+  push ;;;
+  _ <-- pSpaces ;;;
+  r <-- try pEnd ;;;
+  pop ;;;
+  ret (match r with (Some _, _) => true | (None, _) => false end).
 
 (* pars.Word(filter) *)
 Definition pWord (f : byte -> bool) : M (list byte) :=
